@@ -568,7 +568,7 @@ class Exec:
             if m.group(2) == 'BITS':
                 return self.const_int(INT_TY[m.group(1)][0], 'u32')
             return self.const_int(lo if m.group(2) == 'MIN' else hi, m.group(1))
-        if tok.startswith('"'):
+        if tok.startswith('"') or tok.startswith('b"'):
             return StrV(tok)
         m = re.match(r"^'(.*)'$", tok)
         if m:
@@ -1441,6 +1441,12 @@ class Exec:
         if len(out) > 1 and args is not None:
             out2 = [fs for fs in out if len(fs[0].args) == len(args)]
             out = out2 or out
+        if len(out) > 1:
+            # same type name in several modules: keep the impls whose module path matches the (trimmed) path written at the call
+            mod = '::'.join(re.sub(r"^&(?:'\w+ )?(?:mut )?", '', self_ty).split('<')[0].split('::')[:-1])
+            if mod:
+                out2 = [fs for fs in out if fs[0].name.split('<impl')[0].rstrip(':').endswith(mod)]
+                out = out2 or out
         if len(out) > 1:
             # prefer the impl without generic wildcards (a concrete impl beats a blanket one)
             conc = [fs for fs in out if not fs[1]]
